@@ -1342,6 +1342,19 @@ namespace bloch::runtime {
         std::string key = typeKey(assembled);
         if (auto existing = findClass(key))
             return existing;
+        // 'static G<G<T>> next = new G<G<T>>();' asks for G<int>, G<G<int>>, G<G<G<int>>> ... without
+        // end; the analyser bounds type nesting at the same depth
+        {
+            std::function<int(const RuntimeTypeInfo&)> nesting = [&](const RuntimeTypeInfo& ti) {
+                int deepest = 0;
+                for (const auto& a : ti.typeArgs) deepest = std::max(deepest, nesting(a));
+                return deepest + 1;
+            };
+            if (nesting(assembled) > 12) {
+                throw BlochError(ErrorCategory::Runtime, 0, 0,
+                                 "generic type is nested too deeply: " + key.substr(0, 60));
+            }
+        }
 
         compiler::ClassDeclaration* tmpl = tmplIt->second;
         std::unordered_map<std::string, RuntimeTypeInfo> localSubst = subst;
